@@ -1,0 +1,12 @@
+//go:build !verif
+
+package verifhook
+
+// Enabled reports whether the hooks are compiled in.
+const Enabled = false
+
+// Step marks a file-system step of the work unit protocol. No-op in normal builds.
+func Step(_ string, _ string) {}
+
+// Yield marks a scheduling point inside the network code. No-op in normal builds.
+func Yield(_ string, _ string) {}
